@@ -23,12 +23,16 @@ RULE = ('BFS over every sequence up to a length of {set/del by name, index, '
         'negative index, *args slice assignment / insertion / deletion with '
         'compaction, add/remove/set/clear tag, assign Tag.new, '
         'update_callable (with drop_invalid_args), materialize_defaults, '
-        'copy_with, assign, the same edits inside suspend_tracking (single, '
+        'copy_with, assign, edit of a deep copy (the original must not move), '
+        'the same edits inside suspend_tracking (single, '
         'nested, after set_tracking(False), with an exception)} on a '
         'positional/variadic signature and on a keyword signature; states '
         'deduplicated by (stored arguments, tags, tracking flag, dirty set); '
         'the monitor compares the storage delta of each transition with the '
-        'history delta')
+        'history delta; a rejected edit leaves callable, signature, cfg[:], dir '
+        'and history untouched; edits made from user files whose paths end like '
+        'Fiddle internals are attributed to those files; thread schedules incl. '
+        'a thread editing inside suspend blocks')
 ASSUMPTIONS = [
     '"changed stored value" is read off __arguments__ before/after the '
     'transition (whether the edit itself is right is C03\'s business)',
